@@ -182,7 +182,30 @@ def split_known(prop: str, violations: List[Dict]) -> Tuple[List[Dict], List[Dic
 
 
 # ------------------------------------------------------------------------------ evidence / replays
+def selftest_summary(prop: str) -> Dict:
+    """Latest recorded results of the (unregistered) self-tests, copied into the evidence for the reader."""
+    path = os.path.join(env.VERIF_DIR, "selftest_results.json")
+    if not os.path.exists(path):
+        return {"note": "no self-test results recorded"}
+    with open(path) as f:
+        d = json.load(f)
+    muts = {k: v for k, v in d.get("mutants", {}).items() if v.get("property") == prop}
+    det = d.get("determinism", {}).get(prop)
+    return {
+        "source": "selftest_results.json (written by ./check selftest ...; not produced by this run)",
+        "mutants_recorded": len(muts),
+        "mutants_expected_caught_and_caught": sorted(k for k, v in muts.items() if v.get("expect") == "caught" and v.get("caught")),
+        "mutants_expected_clean_and_clean": sorted(k for k, v in muts.items() if v.get("expect") == "clean" and not v.get("caught")),
+        "mutants_not_as_expected": sorted(k for k, v in muts.items() if (v.get("expect") == "caught") != bool(v.get("caught"))),
+        "determinism": None if det is None else {"runs": det.get("runs"), "configurations": len(det.get("configs", [])), "mismatches": det.get("mismatches")},
+    }
+
+
 def write_evidence(prop: str, doc: Dict) -> str:
+    try:
+        doc.setdefault("coverage", {})["selftests"] = selftest_summary(prop)
+    except Exception as e:  # noqa: WPS429
+        doc.setdefault("coverage", {})["selftests"] = {"error": repr(e)}
     os.makedirs(env.EVIDENCE_DIR, exist_ok=True)
     path = os.path.join(env.EVIDENCE_DIR, prop + ".json")
     tmp = path + ".tmp"
